@@ -186,6 +186,13 @@ RATIONALE = [
     ("extern_function_ordinal_indicator", "@extern(\u00aaf)\nZz1;\n", {}),
     ("extern_return_type_roman_numeral", "@extern(zz_f -> T\u2160)\nZz1;\n", {}),
     ("derive_with_superscript_digit", "Zz1 = 'a';\n", {"derives": ["Debug", "De\u00b2"]}),
+    ("char_rule_refers_to_itself", "@char\nZz1 = Zz1 | 'a';\n", {}),
+    ("char_rule_cycle_mutual", "@char\nZz1 = Zz2 | 'a';\n@char\nZz2 = 'b' | Zz1;\n", {}),
+    ("char_rule_cycle_used_by_whitespace", "Zz3 = 'x';\n@no_skip_ws\nWhitespace = {Zz1};\n@char\nZz1 = ' ' | Zz2;\n@char\nZz2 = '\\t' | Zz1;\n", {}),
+    ("whitespace_calls_itself", "Zz3 = 'x';\n@no_skip_ws\nWhitespace = ' ' [Whitespace];\n", {}),
+    ("whitespace_calls_skipping_rule", "Zz3 = 'x';\n@no_skip_ws\nWhitespace = {Zz1};\nZz1 = ' ' | '#' Zz2;\nZz2 = 'c';\n", {}),
+    ("char_rule_refers_to_missing_rule", "@char\nZz1 = ZzNope | 'a';\n", {}),
+    ("char_rule_refers_to_normal_rule", "@char\nZz1 = Zz2 | 'a';\nZz2 = 'b';\n", {}),
     ("derive_is_a_path", "Zz1 = 'a';\n", {"derives": ["Debug", "Clone", "serde::Serialize"]}),
     ("derive_with_generics", "Zz1 = 'a';\n", {"derives": ["Debug", "PartialEq<u8>"]}),
     ("derive_starts_with_digit", "Zz1 = 'a';\n", {"derives": ["Debug", "1"]}),
@@ -440,6 +447,10 @@ def build_cells(seed, tier, pool):
         cells.append(Cell("grammar_read_EIO_second", r, "fail", "io_read", big, faults="read:{G}:2:e5"))
         cells.append(Cell("grammar_read_EINTR_retried", r, "same_as_control", "io_transparent", big, faults="read:{G}:1:e4"))
         cells.append(Cell("grammar_short_reads", r, "same_as_control", "io_transparent", big, faults="read:{G}:0:short%d" % rng.range(1, 97)))
+    # the product of the CLI is its standard output: when it cannot be written the status must not be 0
+    for r in ["cli", "cli_trace", "cli_derives", "cli_ast", "cli_railroad"]:
+        cells.append(Cell("stdout_ENOSPC", r, "status_nonzero", "io_write", VALID, faults="write:@stdout:1:e28"))
+        cells.append(Cell("stdout_EIO_later", r, "status_nonzero", "io_write", big, faults="write:@stdout:0:short%d;write:@stdout:2:e5" % rng.range(50, 900)))
     # directory mode: failures below the top level must surface as well
     cells.append(Cell("nested_grammar_syntax_error", "compile_dir", "fail", "io_read", b"Zz1 = ('a' ;\n", setup="nested_invalid"))
     cells.append(Cell("nested_grammar_restriction", "compile_dir", "fail", "io_read", b"@export\n@string\nZz1 = 'a';\n", setup="nested_invalid"))
@@ -570,6 +581,11 @@ def build_cells(seed, tier, pool):
 
 def judge(cell, verdict, info, controls, groups):
     """None if the cell behaves as the property demands, else a description."""
+    if cell.expect == "status_nonzero":
+        # any non-zero status makes the failure visible (a panic on a failed println! included), a hang or status 0 does not
+        if info["status"] == "exit0" or info["status"] == "timeout":
+            return "the failure is not visible to the caller: %s" % info["status"]
+        return None
     if verdict == "crash":
         return "child %s (panic, abort, signal or hang) instead of an answer" % info["status"]
     if cell.expect == "fail":
